@@ -142,6 +142,7 @@ impl<T: HashAlgorithm> World<T> {
         let mut per_model: Vec<Option<String>> = vec![None; self.conc.keys.len()];
         let mut content: BTreeMap<Key, Vec<u8>> = BTreeMap::new();
         for (i, k) in &self.all_keys {
+            crate::watchdog::tick();
             let got = match read(*k) {
                 Ok(g) => g,
                 Err(_) => {
@@ -152,6 +153,9 @@ impl<T: HashAlgorithm> World<T> {
             let c = self.vt.classify(&got, k, &self.conc.vals);
             if let Some(b) = got {
                 content.insert(*k, b);
+            }
+            if std::env::var("NVH_DEBUG_MIXED").is_ok() {
+                eprintln!("MEMBER {} {} -> {}", self.conc.keys[*i], hex::encode(&k[..20]), c);
             }
             per_model[*i] = Some(match per_model[*i].take() {
                 None => c,
@@ -257,6 +261,7 @@ impl<T: HashAlgorithm> World<T> {
                 Ok(r) => r,
                 Err(e) => return (false, n, format!("read failed: {e}")),
             };
+            crate::watchdog::tick();
             let proof = match s.prove(k) {
                 Ok(p) => p,
                 Err(e) => return (false, n, format!("prove failed: {e}")),
@@ -310,6 +315,7 @@ pub fn verify_witness<T: HashAlgorithm>(
     let mut seen_reads = 0usize;
     let mut seen_writes = 0usize;
     for (i, wp) in witness.path_proofs.iter().enumerate() {
+        crate::watchdog::tick();
         let verified = match wp.inner.verify::<T>(wp.path.path(), prev_root) {
             Ok(v) => v,
             Err(e) => return (false, format!("witness path {i} does not verify: {e:?}")),
@@ -447,6 +453,7 @@ fn batch_for<T: HashAlgorithm>(
     let mut written: BTreeMap<Key, Option<Vec<u8>>> = BTreeMap::new();
     let all = w.all_keys.clone();
     for (i, k) in all {
+        crate::watchdog::tick();
         let name = w.conc.keys[i].clone();
         let mv = writes.get(&name).and_then(|x| x.as_str()).unwrap_or("NoCh");
         if mv == "NoCh" {
